@@ -14,6 +14,7 @@ import json
 from typing import Any, Dict, List, Optional, Tuple
 
 from mc import simctl, world
+from mc.report import guard_harness as _guard
 from mc.report import add_sample, add_violation, count, new_part
 from props.c04 import to_real
 
@@ -264,6 +265,7 @@ class World:
             self.fault = "horizon"
             self.finished = True
         except Exception as exc:
+            _guard(exc)
             self.fault = f"{type(exc).__name__}: {str(exc).splitlines()[0][:160]}"
             self.finished = True
 
@@ -342,6 +344,7 @@ class World:
         except RecursionError:
             self.fault = "RecursionError in response handling"
         except Exception as exc:
+            _guard(exc)
             self.fault = f"{type(exc).__name__}: {str(exc).splitlines()[0][:160]}"
 
     # ---- observation ---------------------------------------------------------------------
